@@ -152,8 +152,27 @@ def run(ck):
     c = make_config({}, extra_inline=("Membrane.get_penetrant_data", "IdealExperiments.__len__"))
     outs = analyse(repo, ae, c)
     sel = []
+    from ..oracle import Oracle
+    from ..poly import Rat
+    try:
+        # the quantity that must be tested: how many experiments there are FOR THIS COMPONENT
+        count = Oracle(repo, ae, c, {}).eval("len(self.get_penetrant_data(component))").r
+    except Exception as e:
+        raise AnalysisError("number of experiments of a component cannot be expressed: %s" % e)
+
+    def is_few(cn, d):
+        if not (isinstance(cn, tuple) and len(cn) == 3 and isinstance(cn[1], Rat) and isinstance(cn[2], Rat)):
+            return False
+        op, l, r = cn
+        if not d:
+            op = {"lt": "ge", "le": "gt", "gt": "le", "ge": "lt", "eq": "ne", "ne": "eq"}.get(op)
+        if l == count and r.is_const():
+            return (op == "lt" and r.const_value() == 2) or (op == "le" and r.const_value() == 1) or (op == "eq" and r.const_value() == 1)
+        if r == count and l.is_const():
+            return (op == "gt" and l.const_value() == 2) or (op == "ge" and l.const_value() == 1) or (op == "eq" and l.const_value() == 1)
+        return False
     for o in outs:
-        few = any(isinstance(cn, tuple) and len(cn) == 3 and cn[0] == "lt" and d for cn, d in o.trace)
+        few = any(is_few(cn, d) for cn, d in o.trace)
         nostated = any(isinstance(cn, tuple) and cn[0] == "isnone" and cn[1].endswith(".activation_energy") and d for cn, d in o.trace)
         if few and nostated:
             sel.append(o)
